@@ -167,6 +167,7 @@ fn main() {
     "checkers" => checkers_probe(),
     "map" => mapprobe::run(&args[2]),
     "keys" => keyprobe::run(&args[2]),
+    "stampsrc" => stampsrc::run(),
     x => panic!("unknown probe {}", x),
   }
 }
@@ -375,5 +376,94 @@ mod keyprobe {
         match r { Ok(s) => writeln!(out, "o {} x{}", s, n).unwrap(), Err(e) => writeln!(out, "o abort:{} x{}", panic_message(&e).chars().take(30).collect::<String>().replace(' ', "_"), n).unwrap() }
       }
     });
+  }
+}
+
+
+// ------------------------------------------------------------------ where stamps come from (C09)
+// A resource whose every open (read or write) is numbered.  The checker's stamp is the number of the reader / writer it was
+// given.  "From the very reader handed to the task": the stamp of a read dependency must be the number of the reader the task
+// got, and a read must open the resource exactly once; the stamp of a write dependency must be the number of the writer the
+// task's write function used.
+mod stampsrc {
+  use std::convert::Infallible;
+  use std::fmt::Debug;
+  use pie::{Context, Pie, Resource, ResourceChecker, ResourceState, Task};
+  use pie::tracker::event::{Event, EventTracker};
+
+  #[derive(Clone, PartialEq, Eq, Hash, Debug)] pub struct Probe(pub u32);
+  #[derive(Default)] pub struct Opens(pub u32);
+  pub struct PR { pub no: u32 }
+  pub struct PW { pub no: u32 }
+  impl Resource for Probe {
+    type Reader<'rs> = PR;
+    type Writer<'r> = PW;
+    type Error = Infallible;
+    fn read<'rs, RS: ResourceState<Self>>(&self, state: &'rs mut RS) -> Result<PR, Infallible> {
+      let o = state.get_or_set_default_mut::<Opens>(); o.0 += 1; Ok(PR { no: o.0 })
+    }
+    fn write<'r, RS: ResourceState<Self>>(&'r self, state: &'r mut RS) -> Result<PW, Infallible> {
+      let o = state.get_or_set_default_mut::<Opens>(); o.0 += 1; Ok(PW { no: o.0 })
+    }
+  }
+  // PC(true): check always reports a change (so that a bottom-up build re-executes the task)
+  #[derive(Clone, Copy, PartialEq, Eq, Hash, Debug)] pub struct PC(pub bool);
+  impl ResourceChecker<Probe> for PC {
+    type Stamp = u32;
+    type Error = Infallible;
+    fn stamp<RS: ResourceState<Probe>>(&self, _r: &Probe, _s: &mut RS) -> Result<u32, Infallible> { Ok(0) }
+    fn stamp_reader(&self, _r: &Probe, reader: &mut PR) -> Result<u32, Infallible> { Ok(reader.no) }
+    fn stamp_writer(&self, _r: &Probe, writer: PW) -> Result<u32, Infallible> { Ok(writer.no) }
+    fn check<RS: ResourceState<Probe>>(&self, _r: &Probe, _s: &mut RS, _stamp: &u32) -> Result<Option<impl Debug>, Infallible> { Ok(if self.0 { Some(1u32) } else { None }) }
+    fn wrap_error(&self, e: Infallible) -> Infallible { e }
+  }
+
+  // mode 0: read; 1: write through the context; 2: create_writer + written_to.  The task returns the number of the reader / writer it used.
+  #[derive(Clone, PartialEq, Eq, Hash, Debug)] pub struct PT(pub u32, pub u32);
+  impl Task for PT {
+    type Output = u32;
+    fn execute<C: Context>(&self, ctx: &mut C) -> u32 {
+      match self.1 {
+        0 => ctx.read(&Probe(self.0), PC(true)).unwrap().no,
+        1 => { let mut seen = 0; ctx.write(&Probe(self.0), PC(true), |w| { seen = w.no; Ok(()) }).unwrap(); seen }
+        _ => { let seen = ctx.create_writer(&Probe(self.0)).unwrap().no; ctx.written_to(&Probe(self.0), PC(true)).unwrap(); seen }
+      }
+    }
+  }
+  #[derive(Clone, PartialEq, Eq, Hash, Debug)] pub struct Outer(pub u32, pub u32);
+  impl Task for Outer {
+    type Output = u32;
+    fn execute<C: Context>(&self, ctx: &mut C) -> u32 { ctx.require(&PT(self.0, self.1), pie::task::EqualsChecker) }
+  }
+
+  fn stamps(tr: &EventTracker) -> Vec<String> {
+    tr.iter().filter_map(|e| match e {
+      Event::ReadEnd(d) => Some(format!("r{:?}", d.stamp)),
+      Event::WriteEnd(d) => Some(format!("w{:?}", d.stamp)),
+      _ => None }).collect()
+  }
+  fn seen_by_task(tr: &EventTracker) -> Vec<String> {
+    tr.iter().filter_map(|e| match e { Event::ExecuteEnd(d) => Some(format!("{:?}", d.output)), _ => None }).collect()
+  }
+  fn opens(pie: &Pie<EventTracker>) -> u32 { pie.resource_state::<Probe>().get::<Opens>().map(|o| o.0).unwrap_or(0) }
+
+  pub fn run() {
+    for mode in 0..3u32 {
+      for nested in [false, true] {
+        let mut pie = Pie::with_tracker(EventTracker::default());
+        let seen = if nested { pie.new_session().require(&Outer(mode + 1, mode)) } else { pie.new_session().require(&PT(mode + 1, mode)) };
+        println!("stampsrc ctx=td mode={} nested={} seen={} stamps={} opens={}", mode, nested as u8, seen, stamps(pie.tracker()).join(","), opens(&pie));
+        // the task re-executed by a bottom-up build (the checker reports a change)
+        let before = opens(&pie);
+        {
+          let mut session = pie.new_session();
+          let mut bu = session.create_bottom_up_build();
+          bu.schedule_tasks_affected_by(&Probe(mode + 1));
+          bu.update_affected_tasks();
+        }
+        println!("stampsrc ctx=bu mode={} nested={} seen={} stamps={} opens={}", mode, nested as u8, seen_by_task(pie.tracker()).join(","), stamps(pie.tracker()).join(","), opens(&pie) - before);
+      }
+    }
+    println!("#");
   }
 }
